@@ -20,6 +20,9 @@ type Clause struct {
 	E     Expr
 	Line  string // file:line
 	Props []string
+	// Assumed: an `assumes` clause - callers may rely on it, the body is not checked against it (an assumption
+	// about what the function computes, e.g. in terms of an uninterpreted abstraction; listed in the evidence)
+	Assumed bool
 }
 
 type LoopSpec struct {
@@ -110,7 +113,7 @@ var labelRe = regexp.MustCompile(`^([a-zA-Z][a-zA-Z0-9_\-]*):\s+(.*)$`)
 
 var keywords = map[string]bool{"channel": true, "func": true, "interface": true, "props": true, "requires": true, "ensures": true,
 	"modifies": true, "nopanic": true, "inline": true, "pure": true, "loop": true, "closure": true, "invariant": true,
-	"ghost": true, "allocates": true, "like": true, "sets": true, "axiom": true, "note": true, "reads": true, "abstract": true, "end": true, "access": true, "keyspace": true, "unreachable": true}
+	"ghost": true, "allocates": true, "like": true, "sets": true, "axiom": true, "note": true, "reads": true, "abstract": true, "end": true, "access": true, "keyspace": true, "unreachable": true, "assumes": true}
 
 // parseSpecFile reads //@ lines (or bare lines in .spec files) into the db.
 // pkgShort qualifies unqualified function keys.
@@ -207,7 +210,7 @@ func (db *SpecDB) parseSpecFile(path string, src []byte, pkgShort string, truste
 				return fmt.Errorf("%s: props outside func", loc)
 			}
 			cur.Props = append(cur.Props, strings.Fields(rest)...)
-		case "requires", "ensures":
+		case "requires", "ensures", "assumes":
 			if tgt == nil {
 				return fmt.Errorf("%s: clause outside func", loc)
 			}
@@ -229,6 +232,7 @@ func (db *SpecDB) parseSpecFile(path string, src []byte, pkgShort string, truste
 			if word == "requires" {
 				tgt.Requires = append(tgt.Requires, c)
 			} else {
+				c.Assumed = word == "assumes"
 				tgt.Ensures = append(tgt.Ensures, c)
 			}
 		case "modifies":
